@@ -109,8 +109,15 @@ class _World:
             tree = text.payload[0]
             if isinstance(tree, A.Opaque) and tree.tag == "ast":
                 fn = A.Opaque("compiled-function", payload={"text": text, "globals": glb, "namespace": target})
+                fn.methods["__call__"] = lambda it_, a_, k_, s_, fn=fn: self.compiled_call(fn, a_, k_, s_)
                 target.items[A._key(tree.attrs["id"])] = fn
         return None
+
+    def compiled_call(self, fn, args, kwargs, site):
+        self.log.append(("call", fn, list(args), dict(kwargs)))
+        if self.fails("the compiled function raises", site):
+            raise A.RaiseSig("ExperimentConditionalFailedError", site, "compiled function")
+        return A.Opaque("group", payload=fn)
 
 
 def _snap(attrs):
@@ -133,7 +140,8 @@ def _changed(before, after):
     return out
 
 
-def explore(ctx: Ctx, history, max_runs=200):
+def explore(ctx: Ctx, history, max_runs=200, then_call=None):
+    """then_call: after the history (all successful), the last explored operation is evaluator(**then_call)."""
     m = ctx.mod(EV)
     c = m.classes().get("ExperimentEvaluator")
     if c is None:
@@ -149,7 +157,7 @@ def explore(ctx: Ctx, history, max_runs=200):
         rec = {"world": w, "self": selfo, "it": it}
         try:
             for i, text in enumerate(history):
-                last = i == len(history) - 1
+                last = i == len(history) - 1 and then_call is None
                 w.active = last
                 if last:
                     rec["before"] = _snap(selfo.attrs)
@@ -157,6 +165,13 @@ def explore(ctx: Ctx, history, max_runs=200):
                     w.log.clear()
                 f = it.class_attr(cls, "__init__" if i == 0 else "recompile", selfo, "")
                 it.call(f, [text], {})
+            if then_call is not None:
+                w.active = True
+                rec["before"] = _snap(selfo.attrs)
+                it.trace.clear()
+                w.log.clear()
+                f = it.class_attr(cls, "__call__", selfo, "")
+                rec["value"] = it.call(f, [], dict(then_call))
             rec["kind"] = "return"
         except A.NeedChoice:
             pending.append(ch + (True,))
@@ -418,4 +433,81 @@ def decide(ctx: Ctx, rid: str, kinds, construct=f"{EV}:ExperimentEvaluator.recom
         ctx.rep.ok(rid, construct, ok_text or f"abstract runs of recompile over {life['facts'].get('schedules')} failure schedules: "
                    f"{', '.join(kinds)} hold", site=m.site(rec))
     ctx.rep.unit(f"{EV}:ExperimentEvaluator.recompile (abstract runs: {life['facts'].get('schedules')} schedules)")
+    return True
+
+
+def call_semantics(ctx: Ctx):
+    """Abstract runs of evaluator(**fields) on an evaluator built from one text: what the compiled function receives, what the call
+    returns, what it stores, and what happens when the compiled function raises."""
+    cached = ctx.__dict__.get("_call_sem")
+    if cached is not None:
+        return cached
+    res = {"undecided": None, "findings": {"result": [], "args": [], "errors": []}}
+    T0 = A.Sym("str", "TEXT0")
+    fields = {"user_id": A.Sym("int", "FIELD:user_id"), "country": A.Sym("str", "FIELD:country"), "flag": True, "extra": None}
+    try:
+        runs = explore(ctx, [T0], then_call=fields)
+    except Undecided as e:
+        res["undecided"] = str(e)
+        ctx.__dict__["_call_sem"] = res
+        return res
+    F = res["findings"]
+    for r in runs:
+        calls = [e for e in r["log"] if e[0] == "call"]
+        raising = any("compiled function raises" in a and a.endswith("=True") for a in r["assume"])
+        stores = [t for t in r["trace"] if t[0] == "store" and t[1] is r["self"]]
+        changed = _changed(r["before"], r["after"])
+        if stores or changed:
+            F["result"].append(("__call__[state]", f"a call changes the evaluator (self.{(stores[0][2] if stores else changed[0])}): "
+                                "a later call can be answered from what an earlier one left behind"))
+        if len(calls) != 1:
+            F["result"].append(("__call__[compiled function]", f"a call invokes the compiled function {len(calls)} times"))
+            continue
+        _c, fn, a_, k_ = calls[0]
+        if a_ or set(k_) != set(fields) or any(k_[x] is not fields[x] for x in fields):
+            got = {x: k_.get(x) for x in sorted(k_)}
+            F["args"].append(("__call__[arguments]", f"the compiled function receives {got!r} (positional: {a_!r}) instead of the caller's "
+                              f"fields {sorted(fields)} unchanged: a dropped, renamed or converted field changes what the experiment sees"[:420]))
+        if raising:
+            if r["kind"] != "raise" or r.get("exc") != "ExperimentConditionalFailedError":
+                F["errors"].append(("__call__[exceptions]", f"when the compiled function raises ExperimentConditionalFailedError the call "
+                                    f"{'raises ' + str(r.get('exc')) if r['kind'] == 'raise' else 'returns normally'}: the class of an error "
+                                    "differs from the one the generated stand-alone text raises"))
+        else:
+            v = r.get("value")
+            if r["kind"] != "return" or not (isinstance(v, A.Opaque) and v.tag == "group" and v.payload is fn):
+                F["result"].append(("__call__[result]", f"a call returns {v!r} rather than what the compiled function returned"))
+    ctx.__dict__["_call_sem"] = res
+    return res
+
+
+def decide_call(ctx: Ctx, rid: str, aspects, no_try=False):
+    sem = call_semantics(ctx)
+    if sem["undecided"]:
+        note = f"abstract interpretation of __call__ undecided ({sem['undecided'][:120]}): syntactic rule used instead"
+        if note not in ctx.rep.notes:
+            ctx.rep.note(note)
+        return False
+    m = ctx.mod(EV)
+    call = m.get_method("ExperimentEvaluator", "__call__")
+    kinds = [k for k in ("result", "args") if k in aspects]
+    bad = False
+    seen = set()
+    for k in kinds:
+        for con, msg in sem["findings"][k]:
+            if (con, msg) in seen:
+                continue
+            seen.add((con, msg))
+            bad = True
+            ctx.rep.bad(rid, f"{EV}:ExperimentEvaluator.{con}", msg, site=m.site(call), text=f"{k}: {con}")
+    if not bad:
+        ctx.rep.ok(rid, f"{EV}:ExperimentEvaluator.__call__", "abstract call: the compiled function is invoked once with the caller's fields "
+                   "unchanged, its result is returned as it is, nothing is stored" if set(kinds) == {"result", "args"} else
+                   ("abstract call: the result is the compiled function's, nothing is stored" if "result" in kinds else
+                    "abstract call: the compiled function receives the caller's fields unchanged"), site=m.site(call))
+    if no_try:
+        errs = sem["findings"]["errors"]
+        ctx.rep.check(not errs, rid.split(".")[0] + ".ERRORS-PASS-THROUGH", f"{EV}:ExperimentEvaluator.__call__[exceptions]",
+                      "__call__ lets the compiled function's exceptions through unchanged" if not errs else errs[0][1],
+                      site=m.site(call), text="exceptions of the compiled function")
     return True
